@@ -1,7 +1,114 @@
 (* C12 -- property theorems only: each is closed by [exact] of a lemma proved elsewhere. *)
 From Coq Require Import List NArith.
-From Muscle Require Import Common.LE Gw.Tunnel Gw.TunnelProofs.
+From Muscle Require Import Common.LE Gw.Tunnel Gw.TunnelProofs Gw.TunnelSound Gw.TunnelSender Gw.TunnelComplete Gw.TunnelTheorems.
+From Muscle Require Import Gw.MiniTunnel Gw.MiniTunnelProofs.
+Import ListNotations.
+Local Open Scope N_scope.
 
-Theorem C12_fragment_header_size : forall f, lenN (enc_frag f) = (FHS + lenN (f_data f))%N.
-Proof. exact lenN_enc_frag. Qed.
-Print Assumptions C12_fragment_header_size.
+(* First clause: over loss / duplication / reordering / foreign datagrams / arbitrary bytes from other
+   addresses, whatever is delivered under a sender's address is one of that sender's Messages. *)
+Theorem C12_tunnel_sound :
+  forall (rc : rcfg) (who : addr -> option sender_run) (net : list (addr * packet)) t out,
+    rc_misc rc = false -> 4 <= rc_mtu rc ->
+    (forall a s, who a = Some s -> sr_ok s /\ sc_mtu (sr_cfg s) <= rc_mtu rc) ->
+    (forall a s p, who a = Some s -> In (a, p) net -> In p (sr_packets s) \/ foreign (rc_magic rc) p) ->
+    recv_all rc [] net = (t, out) ->
+    forall a s m, who a = Some s -> In (a, m) out -> In m (sr_msgs s).
+Proof. exact tunnel_sound. Qed.
+Print Assumptions C12_tunnel_sound.
+
+(* Second clause: every packet once and in order => exactly the completely written Messages that fit
+   the receiver's limit, once each, in order; every MTU, every call pattern. *)
+Theorem C12_tunnel_complete :
+  forall rc c a id0 ops st pkts t0,
+    scfg_ok c -> compat c rc -> id0 < two32 -> no_setid ops ->
+    N.of_nat (length (added ops)) <= two32 ->
+    Forall (fun m => lenN m < two32) (added ops) ->
+    srun c (s_init id0) ops = (st, pkts) ->
+    s_pkt st = [] ->
+    tbl_wf t0 -> tbl_find a t0 = None ->
+    exists done,
+      added ops = done ++ s_q st
+      /\ snd (recv_all rc t0 (map (pair a) pkts)) = map (pair a) (filter (fits rc) done).
+Proof. exact tunnel_complete. Qed.
+Print Assumptions C12_tunnel_complete.
+
+(* Corollary of the second clause: any script followed by one DoOutput call that is not cut short
+   (fuel adequacy of the output loop): every Message that fits is delivered exactly once, in order. *)
+Theorem C12_tunnel_complete_drained :
+  forall rc c a id0 ops mb bud t0,
+    scfg_ok c -> compat c rc -> id0 < two32 -> no_setid ops ->
+    N.of_nat (length (added ops)) <= two32 ->
+    Forall (fun m => lenN m < two32) (added ops) ->
+    (let st1 := fst (srun c (s_init id0) ops) in
+     N.of_nat (out_fuel st1) * sc_mtu c < mb /\ N.of_nat (out_fuel st1) <= bud) ->
+    tbl_wf t0 -> tbl_find a t0 = None ->
+    snd (recv_all rc t0 (map (pair a) (snd (srun c (s_init id0) (ops ++ [SOut mb bud])))))
+    = map (pair a) (filter (fits rc) (added ops)).
+Proof. exact tunnel_complete_drained. Qed.
+Print Assumptions C12_tunnel_complete_drained.
+
+(* The premise "ids distinct mod 2^32" cannot be dropped: with a repeated id a reordering network splices. *)
+Theorem C12_tunnel_wrap_refuted :
+  exists net,
+    (forall p, In p net -> In p (snd (srun wrap_cfg (s_init 0) wrap_ops)))
+    /\ snd (recv_all wrap_rc [] (map (pair 5) net)) = [(5, [Byte.x01; Byte.x02; Byte.x13; Byte.x14])].
+Proof. exact tunnel_wrap_refuted. Qed.
+Print Assumptions C12_tunnel_wrap_refuted.
+
+(* non-vacuity of the premises above *)
+Example C12_premises_satisfiable :
+  sr_ok ex_run /\ sc_mtu (sr_cfg ex_run) <= rc_mtu ex_rc /\ compat ex_cfg ex_rc.
+Proof. exact ex_run_ok. Qed.
+Example C12_premises_nontrivial :
+  length (sr_packets ex_run) = 8%nat
+  /\ snd (recv_all ex_rc [] (map (pair 5) (sr_packets ex_run))) = [(5, repeat Byte.x41 9); (5, [])]
+  /\ s_pkt (fst (srun ex_cfg (s_init 4294967295) ex_ops)) = []
+  /\ s_q (fst (srun ex_cfg (s_init 4294967295) ex_ops)) = [].
+Proof. exact ex_run_nontrivial. Qed.
+
+(* ---------------------------------------------------------------- MiniPacketTunnelIOGateway *)
+
+(* zlib (ZLibCodec::Deflate(independent=true) / Inflate) appears as the premise [inflate (deflate x) = x]. *)
+Theorem C12_mini_sound :
+  forall (deflate : N -> list Byte.byte -> option (list Byte.byte))
+         (inflate : list Byte.byte -> option (list Byte.byte)),
+    (forall lvl x d, deflate lvl x = Some d -> inflate d = Some x) ->
+    forall (rc : rcfg) (who : addr -> option mini_run) (net : list (addr * packet)),
+      rc_misc rc = false -> PHS <= rc_mtu rc ->
+      (forall a s, who a = Some s -> mr_ok s /\ mc_mtu (mr_cfg s) <= rc_mtu rc) ->
+      (forall a s p, who a = Some s -> In (a, p) net -> In p (mr_packets deflate s) \/ foreign (rc_magic rc) p) ->
+      forall a s m, who a = Some s -> In (a, m) (mrecv_all inflate rc net) -> In m (mr_msgs s).
+Proof. exact mini_sound. Qed.
+Print Assumptions C12_mini_sound.
+
+Theorem C12_mini_complete :
+  forall (deflate : N -> list Byte.byte -> option (list Byte.byte))
+         (inflate : list Byte.byte -> option (list Byte.byte)),
+    (forall lvl x d, deflate lvl x = Some d -> inflate d = Some x) ->
+    forall rc c a pid0 ops st pkts,
+      mcfg_ok c -> rc_misc rc = false ->
+      mc_magic c = rc_magic rc -> sex_ok rc (mc_sex c) = true -> mc_mtu c <= rc_mtu rc ->
+      pid0 < 2 ^ 24 -> no_msetid ops ->
+      Forall (fun m => lenN m < two32) (madded ops) ->
+      mrun deflate c (m_init pid0) ops = (st, pkts) ->
+      m_pkt st = [] ->
+      exists done,
+        madded ops = done ++ m_q st
+        /\ mrecv_all inflate rc (map (pair a) pkts) = map (pair a) (filter (mfits c) done).
+Proof. exact mini_complete. Qed.
+Print Assumptions C12_mini_complete.
+
+(* non-vacuity: a codec satisfying the zlib premise exists, and a run satisfying the other premises
+   exercises the compressed path, the uncompressed-with-patched-header path, the drop of an oversize
+   Message and the 24-bit packet-id wrap *)
+Example C12_mini_premises_satisfiable :
+  (forall lvl x d, toy_deflate lvl x = Some d -> toy_inflate d = Some x)
+  /\ mr_ok toy_run /\ mc_mtu (mr_cfg toy_run) <= rc_mtu toy_rc
+  /\ mc_magic toy_cfg = rc_magic toy_rc /\ sex_ok toy_rc (mc_sex toy_cfg) = true.
+Proof. exact (conj toy_codec_ok toy_run_ok). Qed.
+Example C12_mini_premises_nontrivial :
+  map (@length Byte.byte) (mr_packets toy_deflate toy_run) = [13; 17]%nat
+  /\ mrecv_all toy_inflate toy_rc (map (pair 5) (mr_packets toy_deflate toy_run)) = [(5, toy_m1); (5, toy_m2); (5, [Byte.x09])]
+  /\ m_pid (fst (mrun toy_deflate toy_cfg (m_init 16777215) toy_ops)) = 1.
+Proof. exact toy_run_nontrivial. Qed.
